@@ -44,7 +44,7 @@ func main() {
 		os.Exit(1)
 	}
 	n2 := 0
-	for _, pkg := range []string{"symtable", "compile", "vm"} {
+	for _, pkg := range []string{"parser", "symtable", "compile", "vm"} {
 		n, err := instrMapOrder(*repo, pkg, *out, overlay)
 		if err != nil {
 			fmt.Fprintln(os.Stderr, "instr maporder:", pkg, err)
@@ -52,6 +52,16 @@ func main() {
 		}
 		n2 += n
 	}
+	n3 := 0
+	for _, pkg := range []string{"parser", "symtable", "compile", "ast"} {
+		n, err := genGlobals(*repo, pkg, *out, overlay)
+		if err != nil {
+			fmt.Fprintln(os.Stderr, "instr globals:", pkg, err)
+			os.Exit(1)
+		}
+		n3 += n
+	}
+	fmt.Printf("instr: %d package-level variables exposed for snapshots\n", n3)
 	b, _ := json.MarshalIndent(map[string]interface{}{"Replace": overlay}, "", " ")
 	os.WriteFile(filepath.Join(*out, "overlay.json"), b, 0o644)
 	fmt.Printf("instr: %d lifecycle yield points, %d controlled map loops\n", n1, n2)
@@ -372,7 +382,7 @@ func instrMapOrder(repo, pkg, out string, overlay map[string]string) (int, error
 				if _, ok := tv.Type.Underlying().(*types.Map); !ok {
 					continue
 				}
-				site := fmt.Sprintf("%s/%s:L%d", pkg, filepath.Base(fset.Position(rs.Pos()).Filename), fset.Position(rs.Pos()).Line)
+				site := fmt.Sprintf("%s/%s:L%d", pkg, filepath.Base(fset.PositionFor(rs.Pos(), false).Filename), fset.PositionFor(rs.Pos(), false).Line)
 				blk.List[i] = rewriteRange(blk.List[i], rs, site, changed)
 				changed++
 			}
@@ -402,13 +412,17 @@ func instrMapOrder(repo, pkg, out string, overlay map[string]string) (int, error
 				if _, ok := tv.Type.Underlying().(*types.Map); !ok {
 					continue
 				}
-				site := fmt.Sprintf("%s/%s:L%d", pkg, filepath.Base(fset.Position(rs.Pos()).Filename), fset.Position(rs.Pos()).Line)
+				site := fmt.Sprintf("%s/%s:L%d", pkg, filepath.Base(fset.PositionFor(rs.Pos(), false).Filename), fset.PositionFor(rs.Pos(), false).Line)
 				(*list)[i] = rewriteRange(s, rs, site, changed)
 				changed++
 			}
 			return true
 		})
-		if changed == 0 {
+		entries := 0
+		if entryPkgs[pkg] {
+			entries = instrEntries(f, pkg)
+		}
+		if changed == 0 && entries == 0 {
 			continue
 		}
 		count += changed
@@ -418,12 +432,101 @@ func instrMapOrder(repo, pkg, out string, overlay map[string]string) (int, error
 		if err := printer.Fprint(&buf, fset, f); err != nil {
 			return 0, err
 		}
-		name := fset.Position(f.Pos()).Filename
+		name := fset.File(f.Pos()).Name()
 		dst := filepath.Join(out, pkg+"_"+filepath.Base(name))
 		os.WriteFile(dst, buf.Bytes(), 0o644)
 		overlay[name] = dst
 	}
 	return count, nil
+}
+
+// genGlobals adds <pkg>/verif_globals_ov.go with VerifGlobals(), a rendering of every
+// package-level variable (derived from the current source, so a newly introduced cache
+// or scratch variable is covered automatically).
+func genGlobals(repo, pkg, out string, overlay map[string]string) (int, error) {
+	dir := filepath.Join(repo, pkg)
+	fset := token.NewFileSet()
+	pkgs, err := parser.ParseDir(fset, dir, func(fi os.FileInfo) bool { return !strings.HasSuffix(fi.Name(), "_test.go") }, 0)
+	if err != nil {
+		return 0, err
+	}
+	p := pkgs[pkg]
+	if p == nil {
+		return 0, fmt.Errorf("package %s not found", pkg)
+	}
+	var names []string
+	var fnames []string
+	for fn := range p.Files {
+		fnames = append(fnames, fn)
+	}
+	sort.Strings(fnames)
+	for _, fn := range fnames {
+		for _, d := range p.Files[fn].Decls {
+			gd, ok := d.(*ast.GenDecl)
+			if !ok || gd.Tok != token.VAR {
+				continue
+			}
+			for _, sp := range gd.Specs {
+				vs := sp.(*ast.ValueSpec)
+				for _, nm := range vs.Names {
+					if nm.Name != "_" {
+						names = append(names, nm.Name)
+					}
+				}
+			}
+		}
+	}
+	var b strings.Builder
+	fmt.Fprintf(&b, "package %s\n\nimport \"fmt\"\n\n// VerifGlobals renders every package-level variable (overlay-only file).\nfunc VerifGlobals() map[string]string {\n\tm := map[string]string{}\n", pkg)
+	for _, n := range names {
+		fmt.Fprintf(&b, "\tm[%q] = fmt.Sprintf(\"%%#v\", %s)\n", n, n)
+	}
+	b.WriteString("\t_ = fmt.Sprint\n\treturn m\n}\n")
+	dst := filepath.Join(out, pkg+"_verif_globals.go")
+	os.WriteFile(dst, []byte(b.String()), 0o644)
+	overlay[filepath.Join(dir, "verif_globals_ov.go")] = dst
+	return len(names), nil
+}
+
+// packages whose every function gets a verifrt.Enter (scheduling point for concurrent
+// compilation / execution) and, for the VM's opcode handlers, a verifrt.Step.
+var entryPkgs = map[string]bool{"parser": true, "symtable": true, "compile": true, "vm": true}
+
+func instrEntries(f *ast.File, pkg string) int {
+	n := 0
+	for _, d := range f.Decls {
+		fd, ok := d.(*ast.FuncDecl)
+		if !ok || fd.Body == nil || fd.Name.Name == "init" {
+			continue
+		}
+		name := fd.Name.Name
+		if fd.Recv != nil && len(fd.Recv.List) == 1 {
+			var b bytes.Buffer
+			format.Node(&b, token.NewFileSet(), fd.Recv.List[0].Type)
+			name = "(" + b.String() + ")." + name
+		}
+		var pre []ast.Stmt
+		// opcode handlers: func do_X(vm *Vm, arg int32) error
+		if pkg == "vm" && fd.Recv == nil && strings.HasPrefix(fd.Name.Name, "do_") && fd.Type.Params != nil && len(fd.Type.Params.List) == 2 {
+			p0 := fd.Type.Params.List[0]
+			if len(p0.Names) == 1 && p0.Names[0].Name != "_" {
+				vmName := p0.Names[0].Name
+				pre = append(pre, &ast.ExprStmt{X: &ast.CallExpr{
+					Fun: &ast.SelectorExpr{X: ast.NewIdent("verifrt"), Sel: ast.NewIdent("Step")},
+					Args: []ast.Expr{
+						&ast.SelectorExpr{X: ast.NewIdent(vmName), Sel: ast.NewIdent("frame")},
+						&ast.BasicLit{Kind: token.STRING, Value: fmt.Sprintf("%q", strings.TrimPrefix(fd.Name.Name, "do_"))},
+					}}})
+			}
+		}
+		pre = append(pre, &ast.ExprStmt{X: &ast.CallExpr{
+			Fun:  &ast.SelectorExpr{X: ast.NewIdent("verifrt"), Sel: ast.NewIdent("Enter")},
+			Args: []ast.Expr{&ast.BasicLit{Kind: token.STRING, Value: fmt.Sprintf("%q", pkg+"."+name)}},
+		}})
+		fd.Body.List = append(pre, fd.Body.List...)
+		n++
+	}
+	return n
 }
 
 func addImport(f *ast.File, path string) {
